@@ -262,6 +262,7 @@ pub fn run(tier: Tier) -> i32 {
     let nf = b.n_seg.min(u.segwit.levels.len() - 1);
     rep.merge_counts(&has_sig_lemma::<miniscript::Segwitv0>(&rep, "segwitv0", &u.segwit, nf, false, KeyForm::Compressed, thorough));
     rep.merge_counts(&has_sig_lemma::<miniscript::Tap>(&rep, "tap", &u.tap, b.n_tap.min(u.tap.levels.len() - 1), true, KeyForm::XOnly, thorough));
+    rep.merge_counts(&crate::c14::malleability_for_c03(&rep, tier));
     if let Some(d) = models.iter().rev().find(|d| matches!(d, D::Wsh(_))) {
         rep.sample(json!({"descriptor_model": d.sexpr()}));
     }
